@@ -380,6 +380,35 @@ def breaking_variants(root):
         nth_expr(lambda n: isinstance(n, ast.Dict)), '{"lru": lru, "node": node}')
     add(T, 'Traph.get_webentity_pages_iter', 'R-ACCUMULATE', 'final state not yielded',
         nth(lambda s: isinstance(s, ast.Expr) and isinstance(s.value, ast.Yield) and 'finalize' in ast.unparse(s)), 'state.finalize(pages)')
+    # ---- round 5
+    add(T, 'Traph.add_pages', 'R-EVERY-ITEM', 'known nodes skipped before submission',
+        nth(lambda s: isinstance(s, ast.Assign) and '__encode' in ast.unparse(s)),
+        lambda n, src: seg(src, n) + '\n            if self.lru_trie.lru_node(lru):\n                continue')
+    add(T, 'Traph.index_batch_crawl_iter', 'R-EVERY-ITEM', 'sources without targets skipped',
+        nth(lambda s: isinstance(s, ast.Assign) and ast.unparse(s) == 'source_page = self.__encode(source_page)'),
+        lambda n, src: 'if not target_pages:\n                continue\n            ' + seg(src, n))
+    add(T, 'Traph.clear', 'R-CLEAR-AGREE', 'old handles not closed before truncation',
+        nth(lambda s: call_stmt(s, 'close')), 'pass')
+    add(T, 'Traph.clear', 'R-CLEAR-AGREE', 'default rule compiled case-sensitively in clear()',
+        nth_expr(lambda n: isinstance(n, ast.Call) and ast.unparse(n.func) == 're.compile'), 're.compile(default_webentity_creation_rule)')
+    add(H, 'https_variation', 'R-VARIATIONS', 'unchanged LRU returned for other schemes',
+        nth(lambda s: isinstance(s, ast.Return) and isinstance(s.value, ast.Constant) and s.value.value is None), 'return lru')
+    add(H, 'lru_variations', 'R-VARIATIONS', 'only the last host stem is searched for',
+        nth(lambda s: isinstance(s, ast.Assign) and ast.unparse(s.targets[0]) == 'hosts_str'), "hosts_str = hosts[-1] + b'|'")
+    add(ND, 'LRUTrieNode.write', 'R-TAIL-PROTOCOL', 'exists set before the tail test',
+        nth(lambda s: isinstance(s, ast.Assign) and ast.unparse(s) == 'self.block = block'), 'self.block = block; self.exists = True')
+    add(L, 'LRUTrie.lru_node', 'R-BST-AGREE', 'childless node not reported as a miss',
+        nth(lambda s: isinstance(s, ast.If) and 'has_child' in ast.unparse(s.test) and isinstance(s.test, ast.UnaryOp)),
+        'if node.has_child():\n                    node.read_child()')
+    add(T, 'Traph.get_webentity_outlinks_iter', 'R-FILTER-AGREE', 'only crawled pages contribute outlinks',
+        nth_expr(lambda n: isinstance(n, ast.Call) and ast.unparse(n) == 'node.is_page()'), 'node.is_crawled()')
+    add(T, 'Traph.paginate_webentity_pagelinks', 'R-PAGINATE', 'empty resume path dropped',
+        nth(lambda s: isinstance(s, ast.Assign) and 'parse_pagination_token' in ast.unparse(s)),
+        lambda n, src: seg(src, n) + '\n            if not pagination_path:\n                pagination_path = None')
+    add(T, 'Traph.get_webentity_inlinks_iter', 'R-EVERY-PREFIX', 'unbounded walk',
+        nth_expr(lambda n: isinstance(n, ast.Attribute) and n.attr == 'webentity_dfs_iter'), 'self.lru_trie.dfs_iter')
+    add(T, 'Traph.get_page_links', 'R-ENCODED', 'raw LRU compared with stored bytes',
+        nth(lambda s: isinstance(s, ast.Assign) and ast.unparse(s) == 'lru = self.__encode(lru)'), 'pass')
     return out
 
 
